@@ -588,7 +588,7 @@ def _analyse_own(chk):
     chk.rule("slot-pairing", "spin loops: the slot of an input array that is read and the slot of its zeros_like "
                              "derivative buffer that is written are the same expression of the loop variable")
     chk.guard(rule_slot_pairing, prog)
-    chk.floor("slot-pairing", 2, "rho, sigma, tau of the per-spin libxc baseline")
+    chk.floor("slot-pairing", 1, "rho, sigma, tau of the per-spin libxc baseline")
     chk.guard(rule_baseline_degree, prog)
     chk.rule("singular-override", "native baselines: no output carries a singular factor after the masked override "
                                   "that repairs it (rule shared with C08: a derivative made singular again is not "
